@@ -685,8 +685,12 @@ func c02Enumerate(thorough bool) []c02Case {
 									out = append(out, cc)
 								}
 								seen := map[int]bool{}
-								for _, off := range []int{1, headEnd - 1, headEnd + 1, 4095, 4096, 4097, headEnd + 4096, headEnd + 8191, headEnd + 8192, headEnd + 8193,
-									m1End - 1, m1End + 1, m1End - 5, script - 1} {
+								offs := []int{1, headEnd - 1, headEnd + 1, 4095, 4096, 4097, headEnd + 4096, headEnd + 8191, headEnd + 8192, headEnd + 8193,
+									m1End - 1, m1End + 1, m1End - 5, script - 1}
+								if base.Size > 1<<20 {
+									offs = []int{headEnd + 1, 4096, headEnd + 8192, m1End - 1, m1End + 1} // 4 MiB bodies: the five offsets that cut a different part
+								}
+								for _, off := range offs {
 									if off <= 0 || off >= script || seen[off] || off == headEnd && m1End == script {
 										continue
 									}
